@@ -202,6 +202,9 @@ func (w *World) Settle(o *Obs) (fs []finding, confirmed int, err error) {
 			add("renewed-differs", "the renewal on chain carries a different new contract")
 		}
 	}
+	if paying == nil && created != nil {
+		add("paying-txn-missing", "the block creates the contract but no transaction in it carries it")
+	}
 	if paying != nil && o.R == "ok" {
 		paid := func(addr types.Address) (types.Currency, bool) {
 			var in, out types.Currency
@@ -225,6 +228,11 @@ func (w *World) Settle(o *Obs) (fs []finding, confirmed int, err error) {
 		}
 		if hp, ok := paid(w.host.w.Address()); !ok || !hp.Equals(res.hostCost) {
 			add("host-funding", "the host paid %v into the transaction, agreed %v", hp, res.hostCost)
+		}
+		if os.Getenv("PROBE") != "" {
+			rp, _ := paid(w.renter.w.Address())
+			hp, _ := paid(w.host.w.Address())
+			fmt.Printf("PROBE funding: renter paid %v (agreed %v), host paid %v (agreed %v), created=%v renewal=%v\n", rp, res.cost, hp, res.hostCost, created != nil, renewal != nil)
 		}
 	}
 	if o.R == "ok" {
@@ -251,7 +259,7 @@ type edge struct {
 		RCon []int `json:"rCon"`
 		Dead []int `json:"dead"`
 		Net  []int `json:"net"`
-		Act  int   `json:"act"`
+		Act  int   `json:"active"`
 		Out  struct {
 			R   string `json:"r"`
 			Com bool   `json:"com"`
@@ -428,6 +436,13 @@ func (r *runner) onePath(path []edge, repeat int) error {
 		if err != nil {
 			return err
 		}
+		// a world grows old: its active contract approaches the proof window
+		if w.active.Revision.ProofHeight < w.net.cm.Tip().Height+100 {
+			r.drop()
+			if w, err = r.world(); err != nil {
+				return err
+			}
+		}
 		if err := w.Arrange(exp.d.Basis, exp.d.Inp); errors.Is(err, errDrained) {
 			r.drop()
 			if w, err = r.world(); err != nil {
@@ -484,7 +499,7 @@ func (r *runner) onePath(path []edge, repeat int) error {
 				fmt.Sprintf("%v: the code does not follow Form.tla: %s (renter: %q host: %q notes %v)", exp.d, strings.Join(diffs, "; "), o.RErr, o.HErr, o.Notes), replay)
 			dirty = true
 		}
-		if rep == 0 {
+		if rep == 0 && exp.d.PV == "ok" && exp.d.Basis != "same" && (exp.d.Fault == "none" || exp.d.Fault == "bcast" || exp.d.Fault == "cutA4") {
 			r.res.Sample(map[string]any{"desc": exp.d, "observed": o, "spec_calls": exp.calls})
 		}
 		// a world is reused only while it is exactly what the next path's Init assumes
@@ -648,10 +663,25 @@ func driveOne(res *hx.Result, tw *hx.TraceWriter, tr int64, tlen int, stub strin
 		return err
 	}
 	defer r.drop()
+	// events of the attempt in progress are buffered and written at its End
 	seq := 0
 	var emu sync.Mutex
-	emit := func(e event) { emu.Lock(); seq++; e.Seq = seq; tw.Emit(e); emu.Unlock() }
+	var buf []event
+	emit := func(e event) { emu.Lock(); buf = append(buf, e); emu.Unlock() }
+	flush := func(keep bool) {
+		emu.Lock()
+		defer emu.Unlock()
+		if keep {
+			for _, e := range buf {
+				seq++
+				e.Seq = seq
+				tw.Emit(e)
+			}
+		}
+		buf = nil
+	}
 	emit(event{Op: "Reset"})
+	flush(true)
 	w.log.sink = func(c call) { emit(event{Op: "C", C: c.C, Res: c.Res}) }
 	defer func() { w.log.sink = nil }()
 	leaks := 0
@@ -705,7 +735,19 @@ func driveOne(res *hx.Result, tw *hx.TraceWriter, tr int64, tlen int, stub strin
 			if len(sample) < 6 {
 				sample = append(sample, d)
 			}
+			// a wallet that earlier (reported) leaks have drained too far to fund this attempt: the
+			// attempt says nothing new -- it is dropped and the trace ends
+			if leaks > 0 && d.PV != "rfund" && d.PV != "hfund" {
+				for _, c := range o.Calls {
+					if (c.C == "rFund" || c.C == "hFund") && c.Res == "err" {
+						flush(false)
+						res.Sample(map[string]any{"trace": tr, "attempts_prefix": sample, "ended_after": i, "why": "earlier leaks left too little to fund " + d.String()})
+						return nil
+					}
+				}
+			}
 			emit(event{Op: "End", R: o.R, Com: o.Committed, HH: o.DHRes > 0, RH: o.DRRes > 0, HC: o.DHCon == 1, Dead: o.ActDead})
+			flush(true)
 			var fs []finding
 			fs = append(fs, o.judgeAlways()...)
 			if o.R == "err" && !o.Committed {
@@ -720,6 +762,7 @@ func driveOne(res *hx.Result, tw *hx.TraceWriter, tr int64, tlen int, stub strin
 				}
 				fs = append(fs, sfs...)
 				emit(event{Op: "Mine", K: k})
+				flush(true)
 			}
 			r.report(o, fs, replay)
 			if !o.Committed && (o.DHRes > 0 || o.DRRes > 0) {
